@@ -556,6 +556,7 @@ func ruleRelease(c *Ctx) *RuleResult {
 			r.broken("anchor unresolved: (*runtimeContextManager).ReleaseMem")
 		} else {
 			g := newGuardCtx(rm)
+			terms := p.terminators()
 			isParentOfRecv := func(v ssa.Value) bool {
 				u, ok := v.(*ssa.UnOp)
 				if !ok || u.Op != token.MUL {
@@ -576,7 +577,7 @@ func ruleRelease(c *Ctx) *RuleResult {
 					case *ssa.Panic:
 						abort = "panic"
 					case ssa.CallInstruction:
-						if cal := x.Common().StaticCallee(); cal != nil && (cal.Name() == "TerminateContext" || cal.Name() == "KillContext") {
+						if cal := x.Common().StaticCallee(); cal != nil && (cal.Name() == "TerminateContext" || cal.Name() == "KillContext" || terms[cal]) {
 							abort = cal.Name()
 						}
 					}
